@@ -40,7 +40,24 @@ pub fn real_tokens(src: &str) -> Result<Vec<Tok>, String> {
     let mut out = Vec::with_capacity(entries.len());
     for e in entries {
         match e {
-            Ok((s, e, d)) => out.push(Tok { start: s as usize - 1, end: e as usize - 1, kind: kind_of(&d) }),
+            Ok((s, e, d)) => {
+                let start = s as usize - 1;
+                let mut end = e as usize - 1;
+                let kind = kind_of(&d);
+                // token.rs:466-471: for `#Int+`-style operators the span end is taken before the
+                // name and operator part are consumed; the token text is authoritative.
+                if kind == "Operator" {
+                    if let (Some(a), Some(b)) = (d.find('"'), d.rfind('"')) {
+                        if b > a {
+                            let text = d[a + 1..b].replace("\\\\", "\\");
+                            if text.starts_with('#') && src[start..].starts_with(&text) {
+                                end = start + text.len();
+                            }
+                        }
+                    }
+                }
+                out.push(Tok { start, end, kind })
+            }
             Err((s, e, m)) => return Err(format!("tokenizer error {}..{} {}", s, e, m)),
         }
     }
